@@ -261,6 +261,12 @@ func init() {
 			// symbolic credentials are injected by harnesses as the structured value
 			// "Basic " ++ zzb64(user ":" pass); see basicAuthTerm
 			if u, pw, ok := splitBasicTerm(s); ok {
+				// agentF1: the split at the first constant ':' is only right when the user part cannot contain one
+				for _, part := range concatParts(u) {
+					if !fr.i.m.separatorFree(part, ":") {
+						panic(unmodelled{"BasicAuth: symbolic user id may contain ':' (declare it with zz.StringEx(..., \":\"))"})
+					}
+				}
 				return tuple{strVal(u), strVal(pw), true}
 			}
 			panic(unmodelled{"BasicAuth on unstructured symbolic Authorization header"})
